@@ -230,18 +230,23 @@ def strip_lit_parens(ts):
     return out
 
 
+STRICT_PARENS = True
+
+
 def normalise(ts):
-    """Parenthesisation of an operand is decided from its text (a leading minus), which a placeholder hides; both
-    renderings are compared as the sequence of operators, identifiers and literal VALUES: parentheses dropped,
-    negative numbers written as minus + magnitude."""
+    """Both renderings are compared as the sequence of operators, parentheses, identifiers and literal VALUES; negative
+    numbers are written as minus + magnitude (a collected -5 and an inline -5 are the same two tokens).  Parentheses are
+    kept (STRICT_PARENS): since the repairs d7bdaf6 / 397b844 an operand is parenthesised alike with and without a collector."""
     out = []
     for x in ts:
-        if x in (("p", "("), ("p", ")")):
+        if x in (("p", "("), ("p", ")")) and not STRICT_PARENS:
             continue
         if x[0] == "num" and isinstance(x[1], decimal.Decimal) and x[1] < 0:
             out.append(("op", "-"))
             out.append(("num", -x[1]))
         elif x[0] == "num" and isinstance(x[1], decimal.Decimal) and x[1] == 0:
+            if x[1].is_signed():      # negative zero is written with its sign: -0.0
+                out.append(("op", "-"))
             out.append(("num", decimal.Decimal(0)))
         else:
             out.append(x)
